@@ -760,7 +760,7 @@ pub fn run(opts: &Opts) -> i32 {
         };
         let remaining = (opts.budget_s - rep.elapsed()).max(3.0);
         let deadline = std::time::Instant::now() + std::time::Duration::from_secs_f64(remaining / (n - prior as usize) as f64);
-        let cfg = StateCfg { max_depth: depth, deadline: Some(deadline), max_found: 8, first_depth: 1 };
+        let cfg = StateCfg { max_depth: depth, deadline: Some(deadline), max_found: 8, first_depth: 1, tolerate: vec![] };
         let (st, found, samples) = explore(&sys, &cfg);
         rep.add("states", st.states);
         rep.add("transitions", st.transitions);
